@@ -86,6 +86,18 @@ class Transform(Unit):
                 big = g.rng.choice([-1.0, 1.0]) * g.rng.choice([1, 3, 5]) * 2.0 ** g.rng.randint(10, 13)
                 spec.cl[i], spec.cu[i] = big, big + 2.0 ** -10
                 spec.c0[i] = spec.c0[i] + big
+            omit = False
+            if spec.m > 0 and k % 11 == 5:
+                # rows l <= c(x) <= 0 (or 0 <= c(x) <= u) given with one side only: the missing side is zeros
+                side = g.rng.choice(["cu", "cl"])
+                for i in range(spec.m):
+                    if side == "cu":
+                        spec.cu[i] = 0.0
+                        spec.cl[i] = g.rng.choice([-INF, -2.0, -0.5, 0.0])
+                    else:
+                        spec.cl[i] = 0.0
+                        spec.cu[i] = g.rng.choice([INF, 2.0, 0.5, 0.0])
+                omit = True
             sc = gen_scaling(g, spec)
             xt = internal_point(g, spec, sc)
             yt = g.vec(spec.m, kmax=8, jmax=1)
@@ -97,13 +109,14 @@ class Transform(Unit):
                           "fmt": g.rng.choice(["coo", "csr", "csc"]),
                           "explicit_zeros": g.rng.random() < 0.3 or policy == "refill",
                           "dup": g.rng.random() < 0.3 and policy != "refill",
-                          "policy": policy, "twice": g.rng.random() < 0.6})
+                          "policy": policy, "twice": g.rng.random() < 0.6, "omit": omit})
         return cases
 
     def impl(self, case):
         spec = Spec.from_json(case["spec"])
         prob, tr = make_transformation(spec, case["sc"], case["fmt"], policy=case.get("policy", "fresh"),
-                                       explicit_zeros=case["explicit_zeros"], dup=case["dup"])
+                                       explicit_zeros=case["explicit_zeros"], dup=case["dup"],
+                                       omit_zero_bounds=case.get("omit", False))
         T = tr.trans_problem
         x = np.array(case["x"])
         y = np.array(case["y"])
